@@ -84,7 +84,7 @@ def _build_request(variant, pseed, cseed=0):
         while True:
             req, exp, info = c01.gen_request(ch, cfg, False)
             if info["kind"] == variant.split(".")[1] and len(exp["receipt"]) >= 255 \
-                    and info["nodes"] >= 2:
+                    and info["nodes"] >= 2 and info["path"] in c01.PATHS[:2]:
                 break
     elif variant == "sign.hash":
         h = ch.bytes(32, "h")
